@@ -711,6 +711,9 @@ where
             "binary mode is (currently) only supported for binary nodes"
         );
     }
+    if header.nnodes == 0 {
+        return Ok(Vec::new());
+    }
     let Some((terminal, tag)) = M::Terminal::parse("T") else {
         return err("binary mode requires a decision diagram kind with a 'T' terminal");
     };
